@@ -273,6 +273,27 @@ def _match(stmt):
     return None
 
 
+def _search_loop_as_expression(body):
+    """`for v in IT: if [not] E: return False/True` followed by `return True/False` is `return all(E ...)` / `any(...)`."""
+    if (len(body) == 2 and isinstance(body[0], ast.For) and not body[0].orelse and len(body[0].body) == 1 and isinstance(body[0].body[0], ast.If) and not body[0].body[0].orelse
+            and len(body[0].body[0].body) == 1 and isinstance(body[0].body[0].body[0], ast.Return) and isinstance(body[1], ast.Return)
+            and isinstance(body[0].body[0].body[0].value, ast.Constant) and isinstance(body[1].value, ast.Constant)
+            and isinstance(body[0].body[0].body[0].value.value, bool) and isinstance(body[1].value.value, bool)
+            and body[0].body[0].body[0].value.value != body[1].value.value):
+        loop, test, hit = body[0], body[0].body[0].test, body[0].body[0].body[0].value.value
+        if hit is False:  # leave with False when the test holds: all(not test)
+            elt = test.operand if isinstance(test, ast.UnaryOp) and isinstance(test.op, ast.Not) else ast.UnaryOp(op=ast.Not(), operand=test)
+            name = "all"
+        else:
+            elt, name = test, "any"
+        gen = ast.GeneratorExp(elt=elt, generators=[ast.comprehension(target=loop.target, iter=loop.iter, ifs=[], is_async=0)])
+        ret = ast.Return(value=ast.Call(func=ast.Name(id=name, ctx=ast.Load()), args=[gen], keywords=[]))
+        ast.copy_location(ret, body[0])
+        ast.fix_missing_locations(ret)
+        return [ret]
+    return body
+
+
 def _expr_pass(repo, finfo, fn, keep, used) -> bool:
     """Replace calls of one-expression helpers (`def _h(self, a): return <expr>`) by the expression."""
     changed = False
@@ -285,6 +306,7 @@ def _expr_pass(repo, finfo, fn, keep, used) -> bool:
             if helper is None:
                 return node
             body = [s for s in helper.node.body if not (isinstance(s, ast.Expr) and isinstance(s.value, ast.Constant))]
+            body = _search_loop_as_expression(body)
             if len(body) != 1 or not isinstance(body[0], ast.Return) or body[0].value is None:
                 return node
             params = [a.arg for a in helper.node.args.args]
